@@ -26,6 +26,8 @@ def run(ck, tier, seed):
             js += corpus.collision_jobs(tmp, n=40 if q else 400, opts=opts)
             js += corpus.random_jobs(n=60 if q else 1500, seed=seed, opts=opts)
             js += corpus.manytables_jobs(tmp, opts=opts)
+            js += corpus.smp_start_jobs(tmp, opts=opts)
+            js += corpus.cmap_jobs(n=6 if q else 60, seed=seed, opts=opts, dirs=(0, 1))
             for j in js:
                 j["src"] = src
             jf = os.path.join(tmp, "jobs_%s_%d.ndjson" % (src, opts))
